@@ -79,6 +79,9 @@ type Plan struct {
 	Steps []Step      `json:"steps"`
 	Rules []Rule      `json:"rules"`
 	End   EndPlan     `json:"end"`
+	// NoExclude keeps the classes of known findings in the case (never drawn;
+	// set in the known-finding demonstrations).
+	NoExclude bool `json:"noexclude,omitempty"`
 }
 
 func (p Plan) Summary() any {
